@@ -324,6 +324,8 @@ for L in CODEC_LENS:
     M_BTMOD.harnesses.append(H("u12_codec_sep_len%d" % L, "U12", kind="bounded", tiers=("quick", "thorough") if L in (0, 2, 254, 255) else ("thorough",),
                                shape="write_separator/read_separator, key length %d" % L, bound="key lengths {0,1,2,16,254,255,256,300} (both sides of the 255 length escape)"))
 M_BTMOD.harnesses.append(H("u12_codec_header_and_null_child", "U12"))
+M_BTMOD.harnesses.append(H("u41_btree_commit_sorts_operations_and_persists_the_root", "U41", kind="bounded", shape="BTreeChangeSet::write_plan with two operations (Set k0, Dereference k1), arbitrary one-byte keys, arbitrary root/depth before and after",
+                           bound="2 operations, 1-byte keys; BTree::{open,write_sorted_changes} and the header write by contract"))
 M_BTMOD.harnesses.append(H("u19_tree_column_maintenance_reaches_every_table", "U19", kind="bounded", bound="a btree column with 3 value tables"))
 M_COLUMN.harnesses.append(H("u19_hash_column_maintenance_reaches_every_table", "U19", kind="bounded", bound="a hash column with 1 value table"))
 
@@ -432,7 +434,7 @@ PROPS["C06"] = {
     "does_not_cover": ["real part size 4096 / MiB values", "lz4 / snappy themselves", "write_existing_value_plan tier-move path", "reads through the mmap'd file (only the log view is modelled)"],
 }
 PROPS["C14"] = {
-    "kani_units": ["U14", "U3", "U1", "U15", "U19", "U23"],
+    "kani_units": ["U14", "U3", "U1", "U15", "U19", "U23", "U41"],
     "verus_units": [],
     "level": "other",
     "technique": "Kani/CBMC contracts on the real free-list operations and index page update (bounded tables / complete page proofs)",
@@ -492,7 +494,7 @@ PROPS["C07"] = {
 }
 
 PROPS["C04"] = {
-    "kani_units": ["U12", "U23", "U24", "U30"],
+    "kani_units": ["U12", "U23", "U41", "U24", "U30"],
     "verus_units": ["iter_reposition", "iter_merge"],
     "level": "other",
     "technique": "Kani/CBMC contracts on the real btree node operations (array operations complete over ORDER=8; rebalance with child I/O replaced by contracts)",
@@ -547,6 +549,7 @@ UNIT_META = {
                                    "every column id named by the transaction indexes the overlay vector (precondition; commit_changes indexes options.columns with the same ids)",
                                    "statements of commit_raw before the first validation loop (queue-full wait, background-error gate: U34) are outside the fragment"]},
     "U40": {"functions": ["column::HashColumn::write_plan"], "assumes": ["HashColumn::{search_all_indexes,write_plan_existing,write_plan_new} replaced by contracts (recorders; their own contracts are U15 / U15c)"]},
+    "U41": {"functions": ["btree::commit_overlay::BTreeChangeSet::write_plan"], "assumes": ["BTree::open (header read), BTree::write_sorted_changes (U23 and node units) and Column::write_existing_value_plan (header entry write) replaced by contracts"]},
     "U39": {"functions": ["column::Column::{compress,get_value}"], "assumes": ["Compress::compress / decompress (lz4, snappy) replaced by contracts: compress returns a byte string of arbitrary length, decompress the original", "ValueTable::query replaced by its contract (U6-R)"]},
     "U38": {"functions": ["db::DbInner::{get_node,get_node_children}", "column::{unpack_node_data,unpack_node_children}"],
             "assumes": ["CommitOverlay::get_address (std HashMap lookup) and HashColumn::get_value replaced by contracts (scripted)", "one node shape: 2 data bytes, 1 child"]},
@@ -735,3 +738,5 @@ PROPS["C10"]["claim"] = PROPS["C10"]["claim"].replace("Writer side:", "Node read
 PROPS["C04"]["claim"] = PROPS["C04"]["claim"].replace("number_separator / last_separator_index / need_rebalance are exact;", "number_separator / last_separator_index / need_rebalance are exact; position() returns, for every node content (keys of 1-2 arbitrary bytes, not assumed sorted) and every search key, the first separator that is not smaller than the key, reports a match exactly when that separator equals the key, and every separator before it is strictly smaller (complete for the node sizes 0..=8);")
 PROPS["C04"]["does_not_cover"] = ["BTreeIterState::{seek, next, exit} (walk over the node stack)", "whole-tree order and uniform depth over histories", "insert / split path (Node::change)", "keys longer than 2 bytes in position() (same comparison, slice cmp)"]
 PROPS["C07"]["claim"] = PROPS["C07"]["claim"].replace("Bounded, callees by contract: write_existing_value_plan", "Bounded, callees by contract: HashColumn::write_plan applies an operation to the entry of an indexed key where it was found, stores and indexes a Set of a new key, and ignores (writes nothing for) a Reference or Dereference of an absent key; write_existing_value_plan")
+PROPS["C04"]["syntactic"] = ["btree_commit_sorts_stably"]
+PROPS["C04"]["claim"] = PROPS["C04"]["claim"].replace("change sets are ordered by key only.", "change sets are ordered by key only; BTreeChangeSet::write_plan hands every operation of the commit to the tree in key order, operations on one key in commit order (two operations; that the sort is a stable one is a text-level side condition), and writes the new root / depth to the stored header in the same plan whenever they moved.")
